@@ -422,9 +422,9 @@ func vC15Run(tr *vC15Trace, r *rand.Rand, cs *vc15gen.VC15Case, dirty int, kind 
 		line["k"] = k + "/go-only"
 	}
 	if vc15gen.VC15StaleA(msg) {
-		// known finding: packDataA leaves four rdata octets unwritten for a 16-byte
-		// non-IPv4 address; the pooled buffer then shows bytes of an earlier message
-		line["fkey"] = "stale-a-rdata"
+		// the shape of the fixed finding stale-a-rdata (a876f32): packDataA leaves four
+		// rdata octets unwritten; judged strictly like every other case — reverting the
+		// fix makes exactly these cases fail
 		line["k"] = line["k"].(string) + "/stale-a"
 	}
 	if len(fails) > 0 {
@@ -537,8 +537,8 @@ func vC15Stress(tr *vC15Trace, r *rand.Rand, rounds int) {
 		}
 		ref := vc15gen.VC15DeepCopy(cs.Msg)
 		want, err, p := vc15gen.VC15LibPack(ref)
-		if p || vc15gen.VC15StaleA(cs.Msg) {
-			continue // a shape that panics the library has no reference bytes; stale-a-rdata is reported by the sequential cases
+		if p {
+			continue // a shape that panics the library has no reference bytes
 		}
 		items = append(items, item{cs.Msg, want, err == nil, vc15gen.VC15DeepCopy(cs.Msg), vc15gen.VC15Records(cs.Msg)})
 	}
@@ -656,7 +656,7 @@ func TestVerifC15Wire(t *testing.T) {
 	}()
 
 	prev := runtime.GOMAXPROCS(1) // one P: the pooled state a pack gets is the one the previous pack put back
-	// the recorded finding, deterministically: the reply the blocklist builds for a
+	// regression for the fixed finding stale-a-rdata, deterministically: the reply the blocklist builds for a
 	// blocked A query when nullroute is configured as "::", after any earlier reply
 	for i := 0; i < 2; i++ {
 		m := new(dns.Msg)
@@ -664,7 +664,7 @@ func TestVerifC15Wire(t *testing.T) {
 		m.Question = []dns.Question{{Name: "blocked.example.com.", Qtype: dns.TypeA, Qclass: dns.ClassINET}}
 		m.Answer = []dns.RR{&dns.A{Hdr: dns.RR_Header{Name: "blocked.example.com.", Rrtype: dns.TypeA, Class: dns.ClassINET, Ttl: 3600}, A: net.ParseIP("::")}}
 		m.Compress = i == 0
-		vC15Run(tr, r, &vc15gen.VC15Case{Msg: m, Tags: []string{"nullroute-v6"}, Clean: []bool{true}}, 1+i, "finding")
+		vC15Run(tr, r, &vc15gen.VC15Case{Msg: m, Tags: []string{"nullroute-v6"}, Clean: []bool{true}}, 1+i, "regression")
 	}
 	for c := 0; c < n; c++ {
 		var cs *vc15gen.VC15Case
